@@ -65,6 +65,22 @@ class LinearChecker(DagWalker):
         """
         return self.walk(self._simplifier.simplify(expression))
 
+    def _sign(self, expression: "up.model.fnode.FNode") -> Optional[bool]:
+        """
+        Returns `True` (`False`) if the bounds of the type of the given numeric expression
+        guarantee that its value is always positive (negative); `None` if the sign is not known.
+        """
+        t = self._env.type_checker.get_type(expression)
+        assert isinstance(t, _IntType) or isinstance(t, _RealType)
+        if t.lower_bound is None or t.upper_bound is None:
+            return None
+        elif t.lower_bound > 0:
+            return True
+        elif t.upper_bound < 0:
+            return False
+        else:
+            return None
+
     @walkers.handles(
         set(OperatorKind)
         - set(
@@ -107,7 +123,6 @@ class LinearChecker(DagWalker):
         positivity_unknown = False
         positive_fluents: Set["up.model.fnode.FNode"] = set()
         negative_fluents: Set["up.model.fnode.FNode"] = set()
-        tc = self._env.type_checker
         for i, (b, spf, snf) in enumerate(args):
             is_linear = is_linear and b
             if len(spf) > 0 or len(snf) > 0:
@@ -120,16 +135,11 @@ class LinearChecker(DagWalker):
                 positive_fluents |= spf
                 negative_fluents |= snf
             else:
-                t = tc.get_type(expression.arg(i))
-                assert isinstance(t, _IntType) or isinstance(t, _RealType)
-                if t.lower_bound is None or t.upper_bound is None:
+                sign = self._sign(expression.arg(i))
+                if sign is None:
                     positivity_unknown = True
-                elif t.lower_bound > 0:
-                    pass
-                elif t.upper_bound < 0:
+                elif not sign:
                     positivity = not positivity
-                else:
-                    positivity_unknown = True
         if not is_linear:
             return (is_linear, set(), set())
         if positivity_unknown:
@@ -175,12 +185,13 @@ class LinearChecker(DagWalker):
         negative_fluents: Set["up.model.fnode.FNode"] = (
             numerator_negative_fluents | denominator_negative_fluents
         )
-        positivity = True
-        for a in expression.args:
-            if (a.is_int_constant() or a.is_real_constant()) and a.constant_value() < 0:
-                positivity = not positivity
-
-        if positivity:
+        # The denominator has no fluents, so its sign is given by the bounds of its type
+        # (a constant, but also a parameter or an arithmetic combination of them).
+        sign = self._sign(expression.arg(1))
+        if sign is None:
+            fluents = positive_fluents | negative_fluents
+            return (is_linear, fluents, fluents)
+        elif sign:
             return (is_linear, positive_fluents, negative_fluents)
         else:
             return (is_linear, negative_fluents, positive_fluents)
